@@ -1016,7 +1016,7 @@ func init() {
 		ID: "C15",
 		Profiles: []*Profile{
 			func() *Profile {
-				p := dataProfile("c15-inject", map[string]int{"inject": 40, "badanswer": 4, "hostilereq": 4, "sysreset": 5, "qevent": 8, "qmutate": 6, "silent": 5, "mutate": 10, "custom": 2})
+				p := dataProfile("c15-inject", map[string]int{"aliasburst": 4, "inject": 40, "badanswer": 4, "hostilereq": 4, "sysreset": 5, "qevent": 8, "qmutate": 6, "silent": 5, "mutate": 10, "custom": 2})
 				p.Prologue = 80
 				p.Protocol = true
 				return p
@@ -1078,7 +1078,7 @@ func init() {
 		ID: "C13",
 		Profiles: []*Profile{
 			{Name: "c13-query", MinOps: 10, MaxOps: 60, MaxConns: 3, Versions: []string{"1.2.3", "1.2.3", "1.1.1"}, Protocol: true, Prologue: 50, RIDs: rids,
-				W: weightsWith(map[string]int{"badreq": 0, "burst": 0, "auth": 0, "call": 0, "new": 0, "mutate": 2, "custom": 1, "silent": 2, "sysreset": 4, "qmutate": 24, "qevent": 18,
+				W: weightsWith(map[string]int{"badreq": 0, "burst": 0, "auth": 0, "call": 0, "new": 0, "mutate": 2, "custom": 1, "silent": 2, "sysreset": 4, "qmutate": 24, "qevent": 18, "aliasburst": 5,
 					"delete": 0, "reaccess": 1, "token": 0, "httpget": 2, "httppost": 0, "subscribe": 22, "get": 4, "unsubscribe": 6, "close": 1, "connect": 3}),
 				AccessOut: map[string]int{"grant": 20, "deny": 1},
 				GetOut:    map[string]int{"ok": 16, "notfound": 1, "err": 1, "timeout": 1},
